@@ -4,8 +4,10 @@ import (
 	"bytes"
 	"fmt"
 	"os"
+	"runtime"
 	"sort"
 	"strings"
+	"sync"
 	"testing"
 
 	"github.com/ElrondNetwork/elrond-go/data/transaction"
@@ -228,6 +230,12 @@ type verifC25Machine struct {
 
 	trace []string
 	dead  bool // the case ended early (known-finding class reached)
+
+	// model of the sweeping list: list objects collected by the selections since the last sweep rule
+	pendingSweep []*txListForSender
+	sweptSender  bool
+
+	concContended bool // concurrent test: some round had >= 2 goroutines starting with the same new sender
 
 	// C25 non-triviality
 	sawBigSenderEviction bool
@@ -650,15 +658,20 @@ func (m *verifC25Machine) doNotify(sender int, nonce uint64) {
 	}
 }
 
-// Known schedule finding (proposed key C25:sweep-stale-list): the sweeping list keeps *list objects* collected by an
-// earlier selection; if such a sender was dropped from the map in the meantime (last tx removed, global
-// eviction) and registered again by a later add, sweeping removes the sender key - i.e. the new list - while
-// only the hashes of the old list are removed from the hash index. Exactly this class (a collected list that
-// is no longer the list registered for its sender, while another one is) is excluded by construction: the
-// case is counted and ends before the sweep.
+// Known schedule finding C25:sweep-stale-list: the sweeping list keeps *list objects* collected by a selection; if
+// such a sender is dropped from the map (last tx removed, global eviction) and registered again by a later add
+// BETWEEN the selection that collected it and the sweep that follows that selection, the sweep removes the sender
+// key - i.e. the new list - while only the hashes of the old list are removed from the hash index.
+// The exclusion is precise: the harness keeps its own model of which selection collected which list objects
+// (pendingSweep = the objects appended to the sweeping list by the selections since the last sweep rule; a correct
+// implementation re-initialises its list at every sweep). Only a stale object in THIS model (collected since the last
+// sweep, no longer the list registered for its sender, while another list is) is the known class: the case is counted
+// and ends before the sweep. A list object that an earlier, completed sweep already handled is not pending in the
+// model; if the implementation sweeps it again and thereby drops a re-registered sender, the sweep runs and the index
+// invariants fail (hash-not-in-lists / count-senders).
 func (m *verifC25Machine) staleSweepPending() bool {
 	s := verifC25TakeSnap(m.cache)
-	for _, l := range m.cache.sweepingListOfSenders {
+	for _, l := range m.pendingSweep {
 		if cur := s.ptr(l.sender); cur != nil && cur != l {
 			return true
 		}
@@ -666,7 +679,7 @@ func (m *verifC25Machine) staleSweepPending() bool {
 	return false
 }
 
-func (m *verifC25Machine) opSweep(t *rapid.T) {
+func (m *verifC25Machine) doSweep() {
 	if m.mode == 25 && m.staleSweepPending() {
 		m.c.Excluded("C25:sweep-stale-list")
 		m.c.Class("excluded:sweep-stale-list")
@@ -674,9 +687,47 @@ func (m *verifC25Machine) opSweep(t *rapid.T) {
 		m.dead = true
 		return
 	}
+	before := m.cache.CountSenders()
 	m.logf("sweep")
 	m.c.NoPanic(fmt.Sprintf("C%d:sweep-panic", m.mode), func() { m.cache.sweepSweepable() })
 	m.c.Class("op:sweep")
+	if len(m.pendingSweep) > 0 {
+		m.c.Class("sweep-with-collected-senders")
+		m.sweptSender = true
+	}
+	if m.cache.CountSenders() < before {
+		m.c.Class("sweep-dropped-a-sender")
+	}
+	m.pendingSweep = m.pendingSweep[:0]
+}
+
+func (m *verifC25Machine) opSweep(t *rapid.T) {
+	m.doSweep()
+}
+
+// A sender is starved until it is swept: account nonce notified below its lowest pooled nonce, then three
+// selections, each followed by its sweep (what production does when nothing else happens in between).
+func (m *verifC25Machine) opStarve(t *rapid.T) {
+	s := verifC25TakeSnap(m.cache)
+	var candidates []int
+	for i, k := range s.senders {
+		if len(s.items[i]) > 0 && s.items[i][0].Tx.GetNonce() > 0 {
+			candidates = append(candidates, verifC25SenderIndex(k))
+		}
+	}
+	if len(candidates) == 0 {
+		m.opAdd(t)
+		return
+	}
+	sender := rapid.SampledFrom(candidates).Draw(t, "starveSender")
+	lowest := s.txs(verifC25SenderAddr(sender))[0].Tx.GetNonce()
+	m.c.Class("op:starve")
+	m.doNotify(sender, uint64(rapid.IntRange(0, int(lowest)-1).Draw(t, "starveNonce")))
+	b := rapid.IntRange(1, 5).Draw(t, "starveBatch")
+	for i := 0; i < 3 && !m.dead; i++ {
+		m.doSelect(40, b)
+		m.doSweep()
+	}
 }
 
 func (m *verifC25Machine) opSelect(t *rapid.T) {
@@ -697,7 +748,12 @@ func (m *verifC25Machine) opSelect(t *rapid.T) {
 func (m *verifC25Machine) doSelect(n, b int) {
 	before := verifC25TakeSnap(m.cache)
 	var res []*WrappedTransaction
+	collectedBefore := len(m.cache.sweepingListOfSenders)
 	m.c.NoPanic(fmt.Sprintf("C%d:select-panic", m.mode), func() { res = m.cache.doSelectTransactions(n, b) })
+	// which list objects did this selection collect as sweepable (appended to the sweeping list)
+	if sl := m.cache.sweepingListOfSenders; len(sl) >= collectedBefore {
+		m.pendingSweep = append(m.pendingSweep, sl[collectedBefore:]...)
+	}
 	m.logf("select(%d,%d)->%s", n, b, verifC25DescribeList(res))
 	m.c.Class("op:select")
 	if m.mode == 26 {
@@ -829,14 +885,14 @@ func (m *verifC25Machine) checkSelection(before verifC25Snap, numRequested, batc
 // ---------------------------------------------------------------- program
 
 type verifC25Weights struct {
-	add, sameNonce, dup, remove, sel, sweep, notify int
+	add, sameNonce, dup, remove, sel, sweep, notify, starve int
 }
 
 func (m *verifC25Machine) step(t *rapid.T, w verifC25Weights) {
 	if m.dead {
 		return
 	}
-	total := w.add + w.sameNonce + w.dup + w.remove + w.sel + w.sweep + w.notify
+	total := w.add + w.sameNonce + w.dup + w.remove + w.sel + w.sweep + w.notify + w.starve
 	r := rapid.IntRange(0, total-1).Draw(t, "op")
 	switch {
 	case r < w.add:
@@ -851,6 +907,8 @@ func (m *verifC25Machine) step(t *rapid.T, w verifC25Weights) {
 		m.opSelect(t)
 	case r < w.add+w.sameNonce+w.dup+w.remove+w.sel+w.sweep:
 		m.opSweep(t)
+	case r < w.add+w.sameNonce+w.dup+w.remove+w.sel+w.sweep+w.starve:
+		m.opStarve(t)
 	default:
 		m.opNotify(t)
 	}
@@ -869,7 +927,7 @@ func TestVerifC25_Program(t *testing.T) {
 	kit.Run(t, "C25", kit.Budget{Quick: 3000, Thorough: 30000, Steps: verifC25Steps()}, verifC25Rule,
 		func(rt *rapid.T, c *kit.Case) {
 			m := verifC25NewMachine(rt, c, 25)
-			w := verifC25Weights{add: 40, sameNonce: 8, dup: 5, remove: 15, sel: 12, sweep: 6, notify: 10}
+			w := verifC25Weights{add: 40, sameNonce: 8, dup: 5, remove: 15, sel: 12, sweep: 6, notify: 10, starve: 4}
 			m.checkIndexes("initially")
 			rt.Repeat(map[string]func(*rapid.T){
 				"step": func(t *rapid.T) { m.step(t, w) },
@@ -897,12 +955,167 @@ func TestVerifC26_Program(t *testing.T) {
 	kit.Run(t, "C26", kit.Budget{Quick: 3000, Thorough: 30000, Steps: verifC25Steps()}, verifC26Rule,
 		func(rt *rapid.T, c *kit.Case) {
 			m := verifC25NewMachine(rt, c, 26)
-			w := verifC25Weights{add: 40, sameNonce: 5, dup: 2, remove: 8, sel: 25, sweep: 4, notify: 16}
+			w := verifC25Weights{add: 40, sameNonce: 5, dup: 2, remove: 8, sel: 25, sweep: 4, notify: 16, starve: 2}
 			rt.Repeat(map[string]func(*rapid.T){
 				"step": func(t *rapid.T) { m.step(t, w) },
 				"":     func(t *rapid.T) {},
 			})
 			if m.c26NonTriv {
+				c.NonTrivial(m.traceString())
+				c.Sample("%s", m.traceString())
+			}
+		})
+}
+
+// ---------------------------------------------------------------- concurrent additions (quiescence invariant)
+
+type verifC25ConcOp struct {
+	add  bool
+	x    verifC25Content // add
+	hash string          // remove
+}
+
+func (o verifC25ConcOp) String() string {
+	if o.add {
+		return "add" + o.x.String()
+	}
+	return "remove(" + o.hash + ")"
+}
+
+// One round: G goroutines wait behind a barrier, then run their (pre-generated) operations; after all of them
+// returned (quiescence) the same index invariants as in the sequential program are checked. Nothing depends on timing.
+// Domain (what the cache supports on the unmodified tree, see the assumptions in props/C25.json): thresholds are so
+// large that no eviction runs; in a round a sender is either new (not registered before the round; its first
+// transactions are added concurrently - every goroutine starts with such an add), add-only, or remove-only
+// (removals never race with additions to the same sender: TxCache documents those as "slight inconsistencies").
+func (m *verifC25Machine) concurrentRound(rt *rapid.T, round int, nextSender *int) {
+	snap := verifC25TakeSnap(m.cache)
+	nNew := rapid.IntRange(1, 3).Draw(rt, "newSenders")
+	newSenders := make([]int, nNew)
+	for i := range newSenders {
+		newSenders[i] = *nextSender
+		*nextSender++
+	}
+	// bias towards one hot new sender
+	hot := newSenders[0]
+	var addOnly []int
+	var removable []string
+	for i, k := range snap.senders {
+		if rapid.Bool().Draw(rt, "removeOnly") {
+			for _, tx := range snap.items[i] {
+				removable = append(removable, string(tx.TxHash))
+			}
+		} else {
+			addOnly = append(addOnly, verifC25SenderIndex(k))
+		}
+	}
+	g := rapid.IntRange(2, 8).Draw(rt, "goroutines")
+	progs := make([][]verifC25ConcOp, g)
+	for gi := range progs {
+		nOps := rapid.IntRange(1, 3).Draw(rt, "opsPerGoroutine")
+		for oi := 0; oi < nOps; oi++ {
+			kind := 0
+			if oi > 0 {
+				kind = rapid.IntRange(0, 3).Draw(rt, "concKind")
+			}
+			x := m.genContent(rt)
+			x.size = int64(rapid.IntRange(1, 40).Draw(rt, "concSize"))
+			switch {
+			case kind == 2 && len(addOnly) > 0:
+				x.sender = rapid.SampledFrom(addOnly).Draw(rt, "addOnlySender")
+				progs[gi] = append(progs[gi], verifC25ConcOp{add: true, x: x})
+			case kind == 3 && len(removable) > 0:
+				progs[gi] = append(progs[gi], verifC25ConcOp{hash: rapid.SampledFrom(removable).Draw(rt, "concRemove")})
+			default:
+				x.sender = hot
+				if rapid.IntRange(0, 3).Draw(rt, "otherNew") == 0 {
+					x.sender = rapid.SampledFrom(newSenders).Draw(rt, "newSender")
+				}
+				progs[gi] = append(progs[gi], verifC25ConcOp{add: true, x: x})
+			}
+		}
+	}
+	firstAdds := 0
+	for gi, prog := range progs {
+		for _, o := range prog {
+			if o.add {
+				m.remember(o.x)
+			}
+		}
+		if prog[0].x.sender == hot {
+			firstAdds++
+		}
+		m.logf("round %d goroutine %d: %v", round, gi, prog)
+	}
+	if firstAdds >= 2 {
+		m.concContended = true
+	}
+
+	var wg, ready sync.WaitGroup
+	start := make(chan struct{})
+	var mu sync.Mutex
+	var panics []string
+	for gi := range progs {
+		wg.Add(1)
+		ready.Add(1)
+		go func(prog []verifC25ConcOp) {
+			defer wg.Done()
+			defer func() {
+				if r := recover(); r != nil {
+					mu.Lock()
+					panics = append(panics, fmt.Sprint(r))
+					mu.Unlock()
+				}
+			}()
+			txs := make([]*WrappedTransaction, len(prog))
+			for i, o := range prog {
+				if o.add {
+					txs[i] = verifC25Wrap(o.x)
+				}
+			}
+			ready.Done()
+			<-start
+			for i, o := range prog {
+				if o.add {
+					m.cache.AddTx(txs[i])
+				} else {
+					m.cache.RemoveTxByHash([]byte(o.hash))
+				}
+			}
+		}(progs[gi])
+	}
+	ready.Wait()
+	close(start)
+	wg.Wait()
+	m.c.Class("concurrent-round")
+	if len(panics) > 0 {
+		m.c.Violation("C25:concurrent-panic", "panic in a concurrent round: %v; %s", panics, m.traceString())
+	}
+	m.checkIndexes(fmt.Sprintf("at quiescence after concurrent round %d", round))
+}
+
+const verifC25ConcRule = "concurrent rounds on one TxCache (thresholds far away, no eviction): per round 2-8 goroutines behind a barrier, each 1-3 operations; every goroutine starts by adding a first transaction of one of 1-3 senders that are new in this round (mostly the same one), further operations: more such adds, adds to established add-only senders, removals of transactions of established remove-only senders; 4-10 rounds per case; at quiescence after every round the same index invariants as in the sequential program (hash index == lists both ways, GetByTxHash, CountTx/NumBytes/CountSenders == contents, list order, no duplicates); non-trivial = a round in which >= 2 goroutines start with a first transaction of the same new sender; distinct by program"
+
+func TestVerifC25_Concurrent(t *testing.T) {
+	// the interleavings of interest need real parallelism (or at least OS-level preemption between threads)
+	if prev := runtime.GOMAXPROCS(0); prev < 4 {
+		runtime.GOMAXPROCS(4)
+		defer runtime.GOMAXPROCS(prev)
+	}
+	kit.Run(t, "C25", kit.Budget{Quick: 600, Thorough: 6000}, verifC25ConcRule,
+		func(rt *rapid.T, c *kit.Case) {
+			cfg := ConfigSourceMe{Name: "verif", NumChunks: uint32(rapid.IntRange(1, 4).Draw(rt, "numChunks")), EvictionEnabled: true,
+				NumBytesThreshold: 1 << 30, CountThreshold: 1 << 20, NumBytesPerSenderThreshold: 1 << 24, CountPerSenderThreshold: 1 << 16, NumSendersToPreemptivelyEvict: 1}
+			m, err := verifC25NewMachineWith(c, 25, cfg, 1)
+			if err != nil {
+				rt.Fatalf("fixture: %v", err)
+			}
+			rounds := rapid.IntRange(4, 10).Draw(rt, "rounds")
+			nextSender := 0
+			for r := 0; r < rounds; r++ {
+				m.concurrentRound(rt, r, &nextSender)
+			}
+			if m.concContended {
 				c.NonTrivial(m.traceString())
 				c.Sample("%s", m.traceString())
 			}
